@@ -10,7 +10,7 @@ vars == <<st, hist>>
 View == st
 
 Ops(s) ==
-  (IF s.vals # {} /\ Cardinality(DOMAIN s.hs) < MaxHandles
+  (IF s.vals # {} /\ Cardinality(DOMAIN s.hs) < MaxHandles /\ Backend \notin {"file_ro", "file_cro"}
    THEN {[k |-> k, o |-> o, z |-> z] : k \in {"ab", "at"}, o \in BOOLEAN, z \in BOOLEAN} \cup {[k |-> "adc", o |-> o, z |-> z] : o \in BOOLEAN, z \in BOOLEAN}
    ELSE {})
   \cup {[k |-> "drop", h |-> h] : h \in DOMAIN s.hs}
